@@ -156,3 +156,17 @@ package parallel
 //@   ensures result1 == nil ==> result0.Complete == (satisfied(job, tasks) || impossible(job, tasks))
 //@   ensures result1 == nil && result0.Complete ==> result0.Successful != nil && *result0.Successful == satisfied(job, tasks)
 //@   ensures result1 == nil && !result0.Complete ==> result0.Successful == nil
+
+// HashIndexes (C14): the two maps relate every slice position to its hash and back.
+// "one-slot-per-index" is the property's "distinct indexes never share a ... status slot": it needs HashIndex to be
+// injective on the indexes of the spec, which it is not (known finding F2).
+//@ func HashIndexes
+//@   tags C14
+//@   loop 1 invariant -1 <= rangeindex && rangeindex < len(indexes)
+//@   loop 1 invariant forall k int :: 0 <= k && k <= rangeindex ==> (k in hashes) && hashes[k] == hashOf(indexes[k]) && (hashOf(indexes[k]) in hashesIdx)
+//@   loop 1 invariant forall h string :: (h in hashesIdx) ==> 0 <= hashesIdx[h] && hashesIdx[h] <= rangeindex && hashOf(indexes[hashesIdx[h]]) == h
+//@   loop 1 invariant (forall a int, b int :: 0 <= a && a < b && b < len(indexes) ==> hashOf(indexes[a]) != hashOf(indexes[b])) ==> (forall k int :: 0 <= k && k <= rangeindex ==> hashesIdx[hashOf(indexes[k])] == k)
+//@   ensures [C14] hash-of-every-position: result2 == nil ==> (forall k int :: 0 <= k && k < len(indexes) ==> (k in result0) && result0[k] == hashOf(indexes[k]) && (hashOf(indexes[k]) in result1))
+//@   ensures [C14] slots-point-at-an-index-with-that-hash: result2 == nil ==> (forall h string :: (h in result1) ==> 0 <= result1[h] && result1[h] < len(indexes) && hashOf(indexes[result1[h]]) == h)
+//@   ensures [C14] injective-hash-gives-one-slot-per-index: result2 == nil && (forall a int, b int :: 0 <= a && a < b && b < len(indexes) ==> hashOf(indexes[a]) != hashOf(indexes[b])) ==> (forall k int :: 0 <= k && k < len(indexes) ==> result1[hashOf(indexes[k])] == k)
+//@   ensures [C14] one-slot-per-index: result2 == nil ==> (forall k int :: 0 <= k && k < len(indexes) ==> result1[hashOf(indexes[k])] == k)
